@@ -31,6 +31,8 @@ var families = []family{
 	{[]int64{1, 1, 1, 1, 1, 1, 1}, [][]int{{}, {6, 7}}},
 	{[]int64{3, 3, 3, 2}, [][]int{{}, {4}}},
 	{[]int64{5, 2, 2, 2, 2, 2}, [][]int{{}, {2, 3}}},
+	{[]int64{1, 1, 1, 1}, [][]int{{1}, {2}}},       // the Byzantine member comes first in table order: it is in every minimal quorum it voted with
+	{[]int64{3, 2, 2, 2, 2}, [][]int{{1}, {1}}},    // the heaviest member (3/11 < 1/3) is Byzantine
 }
 
 // input shapes over base 0: tipset ids increase along every chain
